@@ -49,7 +49,7 @@ def main():
             lines = r.stdout.splitlines()
             v = [l for l in lines if l.startswith("VIOLATION")]
             print("== %s rc=%d violations=%d" % (i, r.returncode, len(v)))
-            for l in lines[-12:] if r.returncode not in (0,) else lines[-2:]:
+            for l in (lines[-60:] if r.returncode == 3 else lines[-12:] if r.returncode else lines[-2:]):
                 print("   ", l[:300])
             rc_all[i] = r.returncode
     finally:
